@@ -217,3 +217,24 @@ def structural_sweep(xml):
         if len(el0) and (el0.text or '').strip() == '':
             r = copy.deepcopy(root); par, el = at(r, path); el.text = 'zz'; out.append((label + ' stray text', ser(r)))
     return out
+
+
+def scale(kind, n):
+    """structures whose size or nesting depth grows with n: (xta_part_t, text).  The parser, the builders, the type checker and the destructors
+    recurse over them; none may crash or take time out of proportion at sizes an input file can reasonably have"""
+    return {'plus': (12, '+'.join(['1'] * n)), 'and': (9, ' && '.join(['g == 1'] * n)), 'paren': (12, '(' * n + '1' + ')' * n), 'index': (12, 'a[' * n + '0' + ']' * n),
+            'call': (12, 'f(' * n + '1' + ')' * n), 'args': (12, 'f(' + ','.join(['1'] * n) + ')'), 'comma': (11, ', '.join(['g = 1'] * n)), 'unary': (12, '-' * n + '1'),
+            'ite': (12, 'g ? 1 : ' * n + '0'), 'blocks': (1, 'void h() { ' + '{ ' * n + 'g = 1;' + ' }' * n + ' }'), 'ifelse': (1, 'void h() { ' + 'if (g) g = 1; else ' * n + 'g = 2; }'),
+            'decls': (1, ' '.join('int v%d;' % i for i in range(n))), 'init': (1, 'int big[%d] = {%s};' % (n, ','.join(['1'] * n))), 'stmts': (1, 'void h() { ' + 'g = 1; ' * n + '}'),
+            'forall': (12, 'forall (i : int[0,1]) ' * n + 'true'), 'dots': (12, 'st' + '.s' * n), 'strings': (1, 'const string big = "%s";' % ('x' * n))}[kind]
+
+
+SCALE_KINDS = ['plus', 'and', 'paren', 'index', 'call', 'args', 'comma', 'unary', 'ite', 'blocks', 'ifelse', 'decls', 'init', 'stmts', 'forall', 'dots', 'strings']
+SCALE_DECL = 'int g; int a[2]; int f(int x) { return x; } typedef struct { int s; } ST; ST st;'
+# function bodies by the shape of their last statement, and the dynamic-template constructs
+DECL += ['int r1(int x) { if (x > 0) return 1; }', 'int r2(int x) { if (x > 0) { return 1; } }', 'int r3(int x) { while (x > 0) return 1; }', 'int r4(int x) { for (x = 0; x < 2; x++) return 1; }', 'int r5() { }',
+         'int r6(int x) { if (x) return 1; else return 2; }', 'int r7(int x) { x++; { { if (x == 1) { return 1; } } } }', 'int r8(int x) { do return 1; while (x); }', 'void r9(int x) { return 1; }', 'int r10() { return; }',
+         'int r11(int x) { for (i : int[0,1]) return i; }', 'int r12(int x) { if (x) if (x > 1) return 1; else return 2; }', 'int r13(int x) { ; }', 'int r14(int x) { x = 1; }', 'int r15(int x) { return 1; x = 2; }',
+         'int r16(int x) { if (x) { } else return 1; }', 'int r17(int x) { { } }', 'bool r18() { return 1 < 2; }', 'int r19(int x) { while (x) { if (x) return 1; else return 2; } }',
+         'void ex() { exit(); }', 'dynamic Dyn(int a); void sp() { spawn Dyn(1); }', 'dynamic Dyn(int a); int nf() { return numOf(Dyn); }', 'int ex2() { return exit(); }', 'void sp2() { spawn Nope(1); }',
+         'dynamic Dyn(int a); bool fd() { return forall (p : Dyn) true; }', 'dynamic Dyn(int a); int sd() { return sum (p : Dyn) 1; }']
